@@ -619,3 +619,27 @@ Lemma w_session_example :
   map it_key (items_of (sel 1 (sents tr))) = [0; 1; 2; 3; 4; 5] /\
   map rs_done (sel 1 (sents tr)) = [false; false; true].
 Proof. vm_compute. split; [|split; reflexivity]. repeat ((left; reflexivity) || right). Qed.
+
+(* the executable checks of spec/SeederSpec.v decide the statements used in the theorems *)
+Lemma item_eqb_eq : forall x y, item_eqb x y = true <-> x = y.
+Proof.
+  intros [k1 s1 m1] [k2 s2 m2]. unfold item_eqb. simpl.
+  rewrite !andb_true_iff, !N.eqb_eq. split; [intros [[-> ->] ->]; reflexivity|intros E; inversion E; auto].
+Qed.
+
+Lemma is_prefix_spec : forall l m, is_prefix l m = true <-> exists rest, l ++ rest = m.
+Proof.
+  induction l as [|x l IH]; intros m; simpl.
+  - split; [intros _; exists m; reflexivity|auto].
+  - destruct m as [|y m].
+    + split; [discriminate|intros [rest H]; discriminate].
+    + rewrite andb_true_iff, item_eqb_eq, IH. split.
+      * intros [-> [rest H]]. exists rest. rewrite H. reflexivity.
+      * intros [rest H]. inversion H; subst. split; [reflexivity|exists rest; reflexivity].
+Qed.
+
+Lemma items_eqb_spec : forall l m, items_eqb l m = true <-> l = m.
+Proof.
+  induction l as [|x l IH]; intros [|y m]; simpl; try (split; [discriminate|discriminate]); [tauto|].
+  rewrite andb_true_iff, item_eqb_eq, IH. split; [intros [-> ->]; reflexivity|intros E; inversion E; auto].
+Qed.
